@@ -54,6 +54,23 @@ CLAIMED = {
             "correspondence; an independent exact jet-arithmetic oracle checks every returned vector, the hodograph constructors, tangent and normal.",
             "Not proved: orders >= 2 and the surface case as Lean theorems about the model functions; A2.3's table. Unit length of normalised vectors is floating point (oracle, 1e-12). "
             "F-02 (alternative surface evaluator, order > degree_u) was reported with a replay and fixed; F-02b (derivative_surface on C0 knots) is a recorded finding."),
+    'C08': ("7/C08",
+            "Lean theorems over the executable model, for every degree, elevation count, dimension, parameter and field of characteristic 0: binomial_coefficient = Nat.choose; "
+            "degree elevation preserves the Bernstein form (list model bridged to the Finset identity), keeps both end points, returns p+1+t points; rows of points via flattening; "
+            "rejection guards of both routines; the Bernstein form is A2.2 on the one-span clamped knot vector and the modelled curve evaluator returns it, so 'same curve' is the C01 "
+            "notion; on the REPAIRED degree_reduction, reduce o elevate_1 = id for every degree >= 1 and t reductions invert an elevation by t for every t >= 1 (loop invariants of both "
+            "sweeps, odd-degree average). F-08: the pinned routine is refuted at degree 5 (decide at Q, plus 'point 3 is zero' for every input). Model tied to helpers.degree_elevation / "
+            "degree_reduction, linalg.binomial_coefficient, one-span operations.degree_operations and the curve evaluator by exact-rational correspondence; independent de Casteljau oracle.",
+            "The model mirrors the repaired degree_reduction (fix: commit in /repo; the check reported the violation with a replay on the pinned tree first); rows of points are supported by the "
+            "helper only in flattened form; binomial_coefficient's float division is exact only below 2^53 (degrees used <= 18); operations.degree_operations on multi-span curves is not part of this check."),
+    'C16': ("7/C16",
+            "Lean theorems for all sizes over any ordered field: Doolittle LU (L unit lower, U upper, L*U = A when pivots are non-zero), forward/backward substitution, lu_solve (returns iff pivots non-zero; "
+            "A*x = b, also as a Mathlib Matrix statement), lu_factor (P*b), matrix_inverse (two-sided), matrix_pivot (one permutation sigma of the rows of A and of the identity; P*A; sign), "
+            "history independence with the memoised identity as explicit cache state (every call in every history returns the pure answer), strictly diagonally dominant => lu_solve returns and solves, "
+            "helpers (dot, cross incl. orthogonality, transpose involution, product = Matrix product, identity, binomial = Nat.choose, linspace); determinant = Matrix.det under 'no zero pivot after pivoting'. "
+            "Refutations by decide +kernel of the pinned behaviours F-16a / F-16c (repaired by fix: commits after the check reported them with replays) and of F-16b (recorded finding). Model tied to linalg.* by exact correspondence incl. call histories.",
+            "Model mirrors the repaired code for F-16a/F-16c and the pinned code for F-16b (open finding; matrixDeterminant_eq_det_partial excludes exactly that region). Collocation matrices => non-zero pivots, "
+            "the max-pivot property and the square-root helpers are oracle-only; frange, angle and triangle helpers are not covered."),
     'C03': ("7/C03",
             "Lean theorems over the executable model (any degree, any non-decreasing knot function, any parameter, any ordered field): "
             "linear span search returns the unique half-open interval; A2.2 has p+1 non-negative values summing to 1 and equals the Cox-de Boor "
